@@ -86,13 +86,15 @@ EndElement(w0) ==
 WriteCharacters(w0, v) ==
   LET w1 == SetPreserve(WriteParentTagEnd(w0), TRUE)
   IN SetPrevText(Put(w1, [i |-> "text", v |-> v]), TRUE)
-(* writeCDATA(): writeParentTagEnd(); setPreserve(true); indent(); "<![CDATA[" ... "]]>"   - m_isprevtext untouched *)
+(* writeCDATA(): writeParentTagEnd(); setPreserve(true); indent(); "<![CDATA[" ... "]]>"; setPrevText(true)        *)
+(* (the last statement is the repair of C08 wsAfterCdataBeforeElement: a CDATA section is character data)      *)
 WriteCDATA(w0, v) ==
   LET w1 == Indent(SetPreserve(WriteParentTagEnd(w0), TRUE))
-  IN Put(w1, [i |-> "cdata", v |-> v])
-(* charactersRaw(): writeParentTagEnd(); setPreserve(true); write(chars)                  - m_isprevtext untouched *)
+  IN SetPrevText(Put(w1, [i |-> "cdata", v |-> v]), TRUE)
+(* charactersRaw(): writeParentTagEnd(); setPreserve(true); write(chars); setPrevText(true)                     *)
+(* (the last statement is the repair of C08 wsAfterRawBeforeElement)                                            *)
 CharactersRaw(w0, v) ==
-  Put(SetPreserve(WriteParentTagEnd(w0), TRUE), [i |-> "raw", v |-> v])
+  SetPrevText(Put(SetPreserve(WriteParentTagEnd(w0), TRUE), [i |-> "raw", v |-> v]), TRUE)
 Comment(w0, v) ==
   LET w1 == Indent(WriteParentTagEnd(w0))
   IN SetStartNewLine(Put(w1, [i |-> "comment", v |-> v]), TRUE)
@@ -162,15 +164,13 @@ RECURSIVE Run(_, _)
 Run(w, h) == IF h = <<>> THEN w ELSE Run(Apply(w, h[1]), Tail(h))
 
 (* ------------------------------------------------ deviations of the algorithm from SameContent ---------- *)
-(* writeCDATA() and charactersRaw() set m_ispreserve but NOT m_isprevtext, and startElement() clears            *)
-(* m_ispreserve BEFORE it calls indent(): an element that directly follows a CDATA section / unescaped text    *)
-(* is indented, i.e. line feed + blanks are appended to the existing text node.  (Before a comment, PI or end  *)
-(* tag m_ispreserve is still set and nothing is written.)                                                       *)
-KD_wsAfterCdataBeforeElement(w, ev) ==
-  w.on /\ ev.op = "open" /\ w.names # <<>> /\ w.out[Len(w.out)].i = "cdata"
-KD_wsAfterRawBeforeElement(w, ev) ==
-  w.on /\ ev.op = "open" /\ w.names # <<>> /\ w.out[Len(w.out)].i = "raw"
-KnownDeviation(w, ev) == KD_wsAfterCdataBeforeElement(w, ev) \/ KD_wsAfterRawBeforeElement(w, ev)
+(* None is left.  Until the repairs C08-wsAfterCdataBeforeElement / C08-wsAfterRawBeforeElement, writeCDATA()   *)
+(* and charactersRaw() set m_ispreserve but NOT m_isprevtext, and startElement() clears m_ispreserve BEFORE it  *)
+(* calls indent(): an element that directly followed a CDATA section / unescaped text was indented, i.e. line   *)
+(* feed + blanks were appended to the existing text node.  Both now end with setPrevText(true), as              *)
+(* writeCharacters() always did; MC_Indent checks the refinement on every sequence, without exclusions, and      *)
+(* asserts (Repaired) that the former witnesses conform.                                                         *)
+KnownDeviation(w, ev) == FALSE
 
 (* XSLT 16.1 only WARNS that indent="yes" is unsafe with mixed content; Xalan has no protection beyond "the   *)
 (* previous item was text": m_preserves only ever holds FALSE (it is pushed right after startElement cleared  *)
